@@ -133,43 +133,69 @@ theorem completing_holds_no_real_allocation (s : Core) (ops : List Op) (h : Core
     ∀ a ∈ (run s ops).apps, a.live = true → a.state = "Completing" → ∀ i ∈ a.items, i.bound = true → i.ph = true :=
   (reachable_life s ops h hok).life.completingNoReal
 
-/-- `_partial`: an application with outstanding asks is neither Completing nor Completed — along every history in which
-    no node removal touches an application with a placeholder swap in flight (`RunNoRollback`: `NoRollback s id order` at
-    every `nodeRemove`). -/
-theorem outstanding_ask_not_completed_partial (s : Core) (ops : List Op) (h : CoreInv s) (hp : NoPendInv s)
-    (hok : RunLifeOK s ops) (hnr : RunNoRollback s ops) :
+/-- An application with outstanding asks is neither Completing nor Completed — along every history of the stepped model,
+    also when a node removal rolls back a placeholder swap in flight: `Application.DeallocateAsk` moves a Completing
+    application back to Running, as `AddAllocationAsk` does for a new ask (repaired in 20ee082).  Before the repair the
+    statement was refuted by the history `Example.exOpsC10b` (the former KNOWN_FINDINGS entry
+    C10.completing-with-pending-ask+swap-rolled-back-by-node-removal): a node is removed while a swap of the application
+    is in flight on it; its real allocation on the node goes first (the application becomes Completing: the real ask of
+    the swap counts as allocated), then the swap is rolled back (the ask is outstanding again — and the application
+    stayed Completing); the state timer asked for the remaining placeholder back and its confirmation completed the
+    application with the ask outstanding. -/
+theorem outstanding_ask_not_completed (s : Core) (ops : List Op) (h : CoreInv s) (hp : NoPendInv s)
+    (hok : RunLifeOK s ops) :
     (∀ a ∈ (run s ops).apps, a.live = true → a.state = "Completing" → ∀ i ∈ a.items, i.outstanding = false) ∧
     (∀ a ∈ (run s ops).apps, a.state = "Completed" → ∀ i ∈ a.items, i.outstanding = false) :=
-  let r := reachable_nopend s ops h hp hok hnr; ⟨r.completingNoPending, r.completedNoAsk⟩
+  let r := reachable_nopend s ops h hp hok; ⟨r.completingNoPending, r.completedNoAsk⟩
 
-/-- the full statement, without the restriction on node removals: NOT true of the code -/
-def outstanding_ask_not_completed_full : Prop :=
-  ∀ (s : Core) (ops : List Op), CoreInv s → NoPendInv s → RunLifeOK s ops → NoPendInv (run s ops)
+/-- `_partial` (the form that held before the repair 20ee082): the same along the histories in which no node removal
+    touches an application with a placeholder swap in flight (`RunNoRollback`: `NoRollback s id order` at every
+    `nodeRemove`).  Now a corollary of `outstanding_ask_not_completed`; the side condition is not used. -/
+theorem outstanding_ask_not_completed_partial (s : Core) (ops : List Op) (h : CoreInv s) (hp : NoPendInv s)
+    (hok : RunLifeOK s ops) (_hnr : RunNoRollback s ops) :
+    (∀ a ∈ (run s ops).apps, a.live = true → a.state = "Completing" → ∀ i ∈ a.items, i.outstanding = false) ∧
+    (∀ a ∈ (run s ops).apps, a.state = "Completed" → ∀ i ∈ a.items, i.outstanding = false) :=
+  outstanding_ask_not_completed s ops h hp hok
 
-/-- … refuted (KNOWN_FINDINGS C10.completing-with-pending-ask+swap-rolled-back-by-node-removal): a node is removed while a
-    swap of the application is in flight on it; its real allocation on the node goes first (the application becomes
-    Completing: the real ask of the swap counts as allocated), then the swap is rolled back (the ask is outstanding
-    again, the application stays Completing); the state timer asks for the remaining placeholder back and its
-    confirmation completes the application with the ask outstanding (`Example.exOpsC10b`). -/
-theorem outstanding_ask_not_completed_full_refuted : ¬ outstanding_ask_not_completed_full :=
-  fun h => Example.exC10b_not_noPend (h _ _ Example.coreInv_ex0 Example.noPendInv_ex0 Example.exOpsC10b_life)
+/-- The step that does it: the application record after `DeallocateAsk` (`deallocAppRun`: the ask `key` outstanding
+    again, the replacement link to `other` cleared on both sides) is never Completing, and is Running when it was
+    Completing. -/
+theorem dealloc_ask_runs_again (key other : String) (r : CItem) (a : CApp) :
+    (deallocAppRun key other r a).state ≠ "Completing" ∧
+    (a.state = "Completing" → (deallocAppRun key other r a).state = "Running") ∧
+    (a.state ≠ "Completing" → (deallocAppRun key other r a).state = a.state) := by
+  have hs : (deallocApp key other r a).state = a.state := rfl
+  refine ⟨runAgain_state_ne _, fun h => ?_, fun h => ?_⟩
+  · show (runAgain (deallocApp key other r a)).state = "Running"
+    rw [runAgain_state, if_pos (hs.trans h)]
+  · show (runAgain (deallocApp key other r a)).state = a.state
+    rw [runAgain_state, if_neg (fun e => h (hs.symm.trans e))]; rfl
 
-/-- The state timer completes a Completing application without placeholders whatever its pending total: the step that
-    turns the defect above into "Completed with an outstanding ask". -/
+/-- The state timer completes a Completing application without placeholders whatever its pending total (the step that,
+    before the repair, turned "Completing with an outstanding ask" into "Completed with an outstanding ask"; by
+    `outstanding_ask_not_completed` the pending total of a reachable Completing application lists no outstanding ask). -/
 theorem state_timer_completes_regardless_of_asks (s : Core) (app : String) (a : CApp) (hw : CoreWF s)
     (hfind : s.findApp app = some a) (hst : a.state = "Completing") (hph : isZero (some a.allocatedPh) = true) :
     (s.stateTimeout app).findApp app = none ∧
     ∃ a' ∈ (s.stateTimeout app).apps, a'.id = app ∧ a'.live = false ∧ a'.state = "Completed" ∧ a'.pending = a.pending :=
   let ⟨h1, a', h2, h3, h4, h5, h6, _⟩ := stateTimeout_completes s app a hw hfind hst hph; ⟨h1, a', h2, h3, h4, h5, h6⟩
 
-/-- non-vacuity: the example history `exOps` (placeholder bound, swapped, released, node removed) meets every side
-    condition including `RunNoRollback`; the witness history meets all but that one: right before its node removal the
-    application it touches has a swap in flight -/
-example : CoreInv Example.ex0 ∧ NoPendInv Example.ex0 ∧ RunLifeOK Example.ex0 Example.exOps ∧
-    RunNoRollback Example.ex0 Example.exOps ∧ RunLifeOK Example.ex0 Example.exOpsC10b ∧
+/-- non-vacuity: the hypotheses are met by the empty partition `ex0` with the history `exOpsC10b`, whose node removal does
+    roll a swap back: right before it the application is Running with nothing pending and the swap in flight (items
+    with a release link); right after it the application is Running again — having passed through Completing inside the
+    removal, as its state log shows — with the ask `r1` outstanding; at the end of the history (state timer, release of
+    the last placeholder) it is still live and Running, neither Completing nor Completed.  (`exOps` — placeholder bound,
+    swapped, released, node removed — also meets `RunNoRollback`, the side condition of the `_partial` form.) -/
+example : CoreInv Example.ex0 ∧ NoPendInv Example.ex0 ∧ RunLifeOK Example.ex0 Example.exOpsC10b ∧
     (∃ a, (run Example.ex0 (Example.exOpsC10b.take 11)).findApp "app" = some a ∧ a.state = "Running" ∧ a.pending = [] ∧
-      ∃ i ∈ a.items, i.release ≠ none) :=
-  ⟨Example.coreInv_ex0, Example.noPendInv_ex0, Example.exOps_life, Example.exOps_noRollback, Example.exOpsC10b_life,
-   Example.exC10b_before⟩
+      ∃ i ∈ a.items, i.release ≠ none) ∧
+    (∃ a, (run Example.ex0 (Example.exOpsC10b.take 12)).findApp "app" = some a ∧ a.state = "Running" ∧
+      a.log = ["Accepted", "Running", "Completing", "Running"] ∧ a.pending = [("cpu", 2)] ∧ a.allocatedPh = [("cpu", 2)] ∧
+      ∃ i ∈ a.items, i.key = "r1" ∧ i.outstanding = true) ∧
+    (∃ a, (run Example.ex0 Example.exOpsC10b).findApp "app" = some a ∧ a.state = "Running" ∧ a.pending = [("cpu", 2)] ∧
+      a.allocatedPh = [] ∧ ∃ i ∈ a.items, i.key = "r1" ∧ i.outstanding = true) ∧
+    RunLifeOK Example.ex0 Example.exOps ∧ RunNoRollback Example.ex0 Example.exOps :=
+  ⟨Example.coreInv_ex0, Example.noPendInv_ex0, Example.exOpsC10b_life, Example.exC10b_before,
+   Example.exC10b_after_removal, Example.exC10b_end, Example.exOps_life, Example.exOps_noRollback⟩
 
 end Yk.C10
